@@ -40,6 +40,57 @@ impl Prop for C18 {
         let mut r = Rng::new(seed);
         let pop = *r.pick(&["state", "state", "hfd", "idle"]);
         let mut case = Case { prop: "C18".into(), seed, ..Default::default() };
+        if r.chance(60) {
+            // 'tcp-race' population (executor B): a TCP-client task operates virtual keys while the
+            // real processing-loop thread runs and a feeder types; interleavings, step costs and
+            // stalls are decided by the seeded scheduler
+            case.cfg = "(defsrc a b)\n(defvirtualkeys vk1 1 vk2 2)\n(deflayer l0 x (tap-hold 20 20 y lctl))\n".to_string();
+            let (ka, kb) = (oscode_of("a"), oscode_of("b"));
+            let mut ops = vec![Op::Gap(2)];
+            let mut down: Vec<u16> = vec![];
+            // rounds: at most one operation per virtual key per round, typing in between, and every
+            // round lasts >= 90 ms, so that consecutive operations on the same key are further apart
+            // than the longest injected stall (toggle / tap act on the state at the moment they land)
+            for _ in 0..r.range(2, 7) {
+                let mut spent = 0u32;
+                let mut names = vec!["vk1", "vk2"];
+                r.shuffle(&mut names);
+                names.truncate(r.range(1, 2) as usize);
+                for name in names {
+                    ops.push(Op::Vkey(name.to_string(), r.below(4) as u8));
+                    let g = *r.pick(&[0u32, 0, 1, 2]);
+                    ops.push(Op::Gap(g));
+                    spent += g;
+                    for _ in 0..r.range(0, 2) {
+                        let k = if r.chance(500) { ka } else { kb };
+                        if down.contains(&k) {
+                            ops.push(Op::Release(k));
+                            down.retain(|x| *x != k);
+                        } else {
+                            ops.push(Op::Press(k));
+                            down.push(k);
+                        }
+                        let g = *r.pick(&[0u32, 1, 1, 3, 25]);
+                        ops.push(Op::Gap(g));
+                        spent += g;
+                    }
+                }
+                ops.push(Op::Gap(90u32.saturating_sub(spent).max(60)));
+            }
+            for k in down {
+                ops.push(Op::Release(k));
+                ops.push(Op::Gap(1));
+            }
+            ops.push(Op::Gap(300));
+            case.ops = ops;
+            case.set("pop", "tcp-race");
+            case.set("b_seed", r.next_u64());
+            case.set("b_mode", *r.pick(&["jitter", "stall", "stall"]));
+            case.set("min_cfg", 0);
+            case.set("min_ops", 0);
+            case.set("min_gaps", 0);
+            return case;
+        }
         let legacy = r.chance(300);
         let red = *r.pick(&[0u64, 5]);
         match pop {
@@ -152,6 +203,9 @@ impl Prop for C18 {
     fn check(&self, case: &Case, want_sample: bool) -> RunOut {
         if !history_consistent(&case.ops.iter().filter(|o| !matches!(o, Op::Vkey(..))).cloned().collect::<Vec<_>>()) {
             return RunOut::skip("history-not-consistent");
+        }
+        if case.param("pop") == Some("tcp-race") {
+            return check_tcp_race(case, want_sample);
         }
         let mut st = match Stepper::new_filtered(&case.cfg, &case.files, Mode::Ticking) {
             Ok(s) => s,
@@ -397,4 +451,113 @@ impl Prop for C18 {
             "TCP ActOnFakeKey is driven through the same function the socket handler calls (executor A); the racing-client variant belongs to executor B".into(),
         ]
     }
+}
+
+/// Virtual-key operations from a TCP-client task racing with the real processing-loop thread
+/// (executor B). The operations of one client are applied in order and atomically (under the kanata
+/// lock), so whatever the interleaving with the loop and with typing: each virtual key's OS marker is
+/// pressed once per up->down transition of the sequential model and released once per down->up
+/// transition, the final state agrees with the model, no operation is lost when it lands while the
+/// loop is about to block (lost wake-up), and nothing deadlocks.
+fn check_tcp_race(case: &Case, want_sample: bool) -> RunOut {
+    use crate::exec_b::*;
+    let mode = case.param("b_mode").unwrap_or("jitter").to_string();
+    let bseed = case.param_u64("b_seed").unwrap_or(1);
+    let sim = match mode.as_str() {
+        "jitter" => kanata_verif_rt::SimCfg { seed: bseed, cost_max_ns: 300_000, switch_permille: 300, sleep_overshoot_max_ns: 400_000, max_steps: 20_000_000, ..Default::default() },
+        _ => kanata_verif_rt::SimCfg { seed: bseed, cost_max_ns: 300_000, switch_permille: 300, stall_permille: 25, stall_min_ns: 2_000_000, stall_max_ns: 40_000_000, sleep_overshoot_max_ns: 400_000, max_steps: 20_000_000, ..Default::default() },
+    };
+    let b = match run_b(&case.cfg, &case.files, &case.ops, &BOpts { sim, tcp_task: true, phase_us: 0 }) {
+        Ok(b) => b,
+        Err(e) => {
+            let mut o = RunOut::pass();
+            o.set_fail("C18:loop-panicked", e, vec![]);
+            return o;
+        }
+    };
+    let mut o = RunOut::pass();
+    o.count("pop.tcp-race", 1);
+    o.count(&format!("tcp-race.mode.{mode}"), 1);
+    o.count("tcp-race.scheduling-points", b.report.steps);
+    o.count("tcp-race.task-switches", b.report.switches);
+    o.count("tcp-race.stalls-injected", b.report.stalls);
+    o.sim_ms = b.end_ms.saturating_sub(1_000_000);
+    o.sig = b.report.schedule_hash ^ trace_sig(&b.outs);
+    if !b.report.panics.is_empty() || b.report.deadlock || b.report.leaked > 0 || b.report.overrun {
+        o.set_fail("C18:loop-did-not-terminate", format!("panics {:?} deadlock={} leaked={} overrun={}", b.report.panics, b.report.deadlock, b.report.leaked, b.report.overrun), vec![]);
+        return o;
+    }
+    for (vk, marker) in [("vk1", "Kb1"), ("vk2", "Kb2")] {
+        let (mut dn, mut want_press, mut want_rel) = (false, 0usize, 0usize);
+        for op in &case.ops {
+            if let Op::Vkey(n, act) = op {
+                if n != vk {
+                    continue;
+                }
+                match act & 3 {
+                    0 => {
+                        if !dn {
+                            want_press += 1;
+                        }
+                        dn = true;
+                    }
+                    1 => {
+                        if dn {
+                            want_rel += 1;
+                        }
+                        dn = false;
+                    }
+                    2 => {
+                        // tap: press + release (a tap of a key that is down releases it)
+                        if !dn {
+                            want_press += 1;
+                        }
+                        want_rel += 1;
+                        dn = false;
+                    }
+                    _ => {
+                        if dn {
+                            want_rel += 1;
+                        } else {
+                            want_press += 1;
+                        }
+                        dn = !dn;
+                    }
+                }
+            }
+        }
+        // transitions as the OS sees them (a press of a key that is down / a release of a key that
+        // is up changes nothing)
+        let (mut got_press, mut got_rel, mut os_down) = (0usize, 0usize, false);
+        for e in b.outs.iter().filter(|e| e.key == marker) {
+            match e.kind {
+                OutKind::Press if !os_down => {
+                    got_press += 1;
+                    os_down = true;
+                }
+                OutKind::Release if os_down => {
+                    got_rel += 1;
+                    os_down = false;
+                }
+                _ => {}
+            }
+        }
+        let down_end = b.down_at_end.iter().any(|k| k == marker);
+        o.nontrivial |= got_press > 0;
+        // the OS output is a per-tick difference: operations that land within one tick can cancel
+        // out (press+release between two ticks is invisible), so the counts are upper bounds and the
+        // final state is exact
+        if down_end != dn {
+            o.set_fail("C18:virtual-key-final-state-wrong", format!("{vk}: the operations leave it {} but the OS has {marker} {}: ops {} :: {}", if dn { "down" } else { "up" }, if down_end { "down" } else { "up" }, ops_short(&case.ops), outs_short(&b.outs)), vec![]);
+            return o;
+        }
+        if got_press > want_press || got_rel > want_rel || got_press != got_rel + (down_end as usize) {
+            o.set_fail("C18:virtual-key-transitions-wrong", format!("{vk}: model {want_press} presses / {want_rel} releases, OS {got_press} / {got_rel}: ops {} :: {}", ops_short(&case.ops), outs_short(&b.outs)), vec![]);
+            return o;
+        }
+    }
+    if want_sample {
+        o.sample = Some(sample_json(case, &b.outs, json!({"mode": mode, "steps": b.report.steps, "switches": b.report.switches, "stalls": b.report.stalls})));
+    }
+    o
 }
